@@ -81,19 +81,21 @@ def ctype_for(rng, kind, boundary='XbX'):
     m = MIME[kind]
     r = rng.random()
     if kind == 'multi':
-        if r < 0.7: return m + '; boundary=' + boundary
+        if r < 0.6: return m + '; boundary=' + boundary
+        if r < 0.7: return m + rng.choice(['; charset=utf-8; boundary=' + boundary, '; boundary=' + boundary + '; charset=utf-8', ';boundary=' + boundary])
         if r < 0.8: return m + rng.choice(['x', '-data', '2']) + '; boundary=' + boundary
         if r < 0.9: return rng.choice(['multipart/mixed; boundary=' + boundary, 'application/json', 'text/plain', 'multipart/form-dat; boundary=' + boundary])
         return None
     if r < 0.5: return m
-    if r < 0.65: return m + rng.choice(['; charset=utf-8', ';charset=UTF-8', ' ; q=1', '; boundary=x'])
+    if r < 0.65: return m + rng.choice(['; charset=utf-8', ';charset=UTF-8', ' ; q=1', '; boundary=x', '; charset=utf-8; boundary=x', '; a=1; b=2; c=3', ';a="x;y"'])
     if r < 0.8: return m + rng.choice(['x', 'ly', '-patch+json', '+xml', '/x', '2'])
     if r < 0.9: return rng.choice(['application/octet-stream', 'text/html', 'application/x-www-form-urlencoded', 'application/json', 'text/plain', m.upper(), ' ' + m])
     return None
 
 
 def query_for(rng):
-    return rng.choice(['a=1', 'a=1&b=x', 'b=%E3%81%82&a=4294967295', 'a=4294967296', 'a=x', 'b=only', '', 'a=1&b=', 'a=1&zz=2', 'a=+5', 'a=1&a=2', 'a=%31'])
+    return rng.choice(['a=1', 'a=1&b=x', 'b=%E3%81%82&a=4294967295', 'a=4294967296', 'a=x', 'b=only', '', 'a=1&b=', 'a=1&zz=2', 'a=+5', 'a=1&a=2', 'a=%31',
+                       'a=1&t=', 't=&a=2', 'a=1&t=1,2,3', 'a=1&t=7', 'a=2&t=x', 'a=1&t=1,,2', 'a=1&t=4294967296', 'a=1&t=0,4294967295&b=y', 'a=1&t=1,', 'a=1&t=,'])
 
 
 # ---- independent decoders (the values the texts denote)
@@ -128,6 +130,11 @@ def dec_kv(text, fields):
             z = int(raw)
             if not ((-2 ** 31 <= z < 2 ** 31) if t == 'i32' else (0 <= z < 2 ** 32)): return None
             vals[f] = z
+        elif t == 'seq_u32_default':          # a comma-separated list; the empty value is the empty list, an absent field the default (empty)
+            vals[f] = []
+            for e in (raw.split(b',') if raw else []):
+                if not re.fullmatch(rb'\+?[0-9]+', e) or not (0 <= int(e) < 2 ** 32): return None
+                vals[f].append(int(e))
         else:
             if raw is None:
                 if t == 'optstring': vals[f] = None; continue
@@ -139,7 +146,7 @@ def dec_kv(text, fields):
 
 
 def echo_b(v): return ('x=%d;s=%s' % (v['x'], hx(v['s']))).encode()
-def echo_q(v): return ('a=%d;b=%s' % (v['a'], hx(v['b']) if v['b'] is not None else '-')).encode()
+def echo_q(v): return ('a=%d;b=%s;t=%s' % (v['a'], hx(v['b']) if v['b'] is not None else '-', '.'.join(str(x) for x in v['t']))).encode()
 
 
 def dec_json_b(body):
@@ -166,8 +173,11 @@ def decode_item(kind, data):
         except UnicodeDecodeError: return None
     if kind == 'multi': return _MULTI.get(data)          # any other body (JSON, pairs, text) is not a multipart form
     if kind == 'query':
-        v = dec_kv(data, [('a', 'u32'), ('b', 'optstring')])
+        v = dec_kv(data, [('a', 'u32'), ('b', 'optstring'), ('t', 'seq_u32_default')])
         return echo_q(v) if v is not None else None
+    if kind == 'oquery':          # every field may be absent: no query at all denotes the all-default value
+        v = dec_kv(data, [('b', 'optstring'), ('t', 'seq_u32_default')])
+        return ('b=%s;t=%s' % (hx(v['b']) if v['b'] is not None else '-', '.'.join(str(x) for x in v['t']))).encode() if v is not None else None
 
 
 SIGS = {10: ['String'], 11: ['str'], 12: ['Cow'], 13: ['u8', 'String'], 14: ['i64', 'str']}
@@ -177,7 +187,7 @@ LAY = {1: [('query', False)], 2: [('query', False), ('json', False)], 3: [('quer
 
 
 def mk(rng, sig=None):
-    sig = rng.choice(list(range(0, 21)) + [22, 23, 43, 43, 44] + list(COMBO)) if sig is None else sig
+    sig = rng.choice(list(range(0, 21)) + [22, 23, 43, 43, 44, 45, 45] + list(COMBO)) if sig is None else sig
     headers, body, method, items, q = [], None, 'GET', [], ''
     if sig in INT:
         name, bits, signed = INT[sig]
@@ -190,15 +200,15 @@ def mk(rng, sig=None):
         ptys = ['u8']; segs = [seg_int(rng, 8, False), seg_str(rng)]; target = '/m/%s/x/%s' % (segs[0], segs[1])
     else:
         ptys, segs = [], []
-        layout = LAY[COMBO[sig][1]] if sig in COMBO else {15: [('query', False)], 16: [('json', False)], 17: [('json', True)], 18: [('form', False)], 19: [('text', False)], 20: [('query', False), ('json', False)], 23: [('form', True), ('text', True)], 43: [('multi', False)], 44: [('multi', True)]}[sig]
-        method = 'GET' if layout == [('query', False)] else 'POST'
-        target = (('/q/u/c%d' if sig < 37 else '/q/w/c%d') if sig in COMBO else '/f/p%d' if sig in (43, 44) else '/t/p%d') % sig
+        layout = LAY[COMBO[sig][1]] if sig in COMBO else {15: [('query', False)], 16: [('json', False)], 17: [('json', True)], 18: [('form', False)], 19: [('text', False)], 20: [('query', False), ('json', False)], 23: [('form', True), ('text', True)], 43: [('multi', False)], 44: [('multi', True)], 45: [('oquery', False)]}[sig]
+        method = 'GET' if layout in ([('query', False)], [('oquery', False)]) else 'POST'
+        target = (('/q/u/c%d' if sig < 37 else '/q/w/c%d') if sig in COMBO else '/f/p%d' if sig in (43, 44, 45) else '/t/p%d') % sig
         if sig == 20: ptys = ['u8']; segs = [seg_int(rng, 8, False)]; target += '/' + segs[0]
         if sig in COMBO and COMBO[sig][0]:
             ptys = ['u8', 'String'] if COMBO[sig][0] == 'T2' else ['u8']
             segs = [seg_int(rng, 8, False)] + ([seg_str(rng)] if len(ptys) == 2 else [])
             target += '/' + '/'.join(segs)
-        bkind = next((k for k, _ in layout if k != 'query'), None)
+        bkind = next((k for k, _ in layout if k not in ('query', 'oquery')), None)
         ct = None
         if bkind:
             use = rng.choice([bkind, bkind, bkind, rng.choice(['json', 'form', 'text'])])
@@ -209,9 +219,9 @@ def mk(rng, sig=None):
                 ct = ctype_for(rng, use)
                 if rng.random() < 0.9: body = body_for(rng, rng.choice([use, bkind]))
             if ct is not None: headers.append(['Content-Type', ct])
-        if any(k == 'query' for k, _ in layout): q = query_for(rng)
+        if any(k in ('query', 'oquery') for k, _ in layout): q = query_for(rng) if rng.random() < 0.6 else ''
         for k, opt in layout:
-            if k == 'query': items.append({'kind': 'query', 'optional': opt, 'mime': '', 'ctype': None, 'payload': None, 'decoded': (lambda d: d.hex() if d is not None else None)(decode_item('query', q.encode()))})
+            if k in ('query', 'oquery'): items.append({'kind': 'query', 'optional': opt, 'mime': '', 'ctype': None, 'payload': None, 'decoded': (lambda d: d.hex() if d is not None else None)(decode_item(k, q.encode()))})
             else:
                 payload = body if body else None          # an empty body is no payload
                 items.append({'kind': 'body', 'optional': opt, 'mime': MIME[k], 'ctype': hx(ct) if ct is not None else None, 'payload': payload.hex() if payload is not None else None,
